@@ -70,6 +70,11 @@ def build_problem(case):
                                vel_range=(0.2, 6.0), length=0.5,
                                conv_approx=0.3)
     feats['n_ring'] = nring
+    feats['near_bounds'] = None
+    if rng.random() < 0.3:
+        # two boundaries inside one axial step, the lower one the start of
+        # an upper axial region
+        feats['near_bounds'] = wl.near_region_bounds(rng, P)
     return P, feats
 
 
@@ -407,6 +412,7 @@ def run_case(case):
                 res.tag('%s=%s' % (k, feats[k]))
             res.tag('conv_approx_active=%s' % any(getattr(a.active_region, '_conv_approx', False) for a in r.assemblies))
             res.tag('n_asm=%d' % feats['n_asm'])
+            res.tag('near_bounds=%s' % feats.get('near_bounds'))
             res.tag('n_pos=%d' % feats['n_pos'])
             if has_lag:
                 res.tag('has_sixnode')
